@@ -816,7 +816,10 @@ var boundary = []struct {
 var bigDecl = []int{1 << 24, 1 << 26, 1<<26 + 1, 1 << 28, 1 << 30, 1<<31 - 1, 1 << 31, 1<<32 - 1}
 
 func hugeBlock(r *hv.Rng) []byte {
-	decl := uint32(pickInt(r, bigDecl))
+	decl := uint32(pickInt(r, bigDecl[:3]))
+	if r.Chance(1, 5) { // a few up to 2^32-1: a parser that trusts them needs gigabytes
+		decl = uint32(pickInt(r, bigDecl))
+	}
 	have := pickInt(r, []int{0, 1, 2, 100, 4095, 4096, 4097, 9000})
 	var bb bytes.Buffer
 	binary.Write(&bb, binary.BigEndian, uint32(1))
